@@ -1,5 +1,7 @@
 import Driver.Util
 import Driver.C16
+import Driver.Recv
+import Driver.Send
 open Lean Driver
 
 def dispatch (j : Json) : R Json := do
@@ -7,6 +9,8 @@ def dispatch (j : Json) : R Json := do
   let pfx := (op.splitOn ".").headD ""
   match pfx with
   | "c16" => Driver.C16.handle op j
+  | "recv" => Driver.Recv.handle op j
+  | "send" => Driver.Send.handle op j
   | "ping" => return obj [("pong", Json.bool true)]
   | _ => throw s!"unknown op prefix {pfx}"
 
